@@ -452,7 +452,7 @@ Section Step.
   Hypothesis (Htr : threl (pl (r_head c)) th lt).
 
   Definition SGoal (c' : rstate) : Prop :=
-    exists k s' L', lrun s (repeat t k) = s' /\ Inv s' L' /\ TInv s' L' /\ Sim c' s' L'.
+    exists k s' X, lrun s (repeat t k) = s' /\ Inv s' (L ++ X) /\ TInv s' (L ++ X) /\ Sim c' s' (L ++ X).
 
   Let Hpcr := proj1 Htr.
   Let Hcur := proj1 (proj2 Htr).
@@ -483,7 +483,7 @@ Section Step.
     SGoal (rwith_thr c t th').
   Proof.
     intros (A1 & A2 & A3) B1 B2 B3 B4 B5 B6 B7 B8.
-    exists k, (with_thr s t lt'), L. split; [exact A1|split; [exact A2|split; [exact A3|]]].
+    exists k, (with_thr s t lt'), []. rewrite app_nil_r. split; [exact A1|split; [exact A2|split; [exact A3|]]].
     exists la, st.
     pose proof (rel_local c s L la st t th th' lt' (r_tail c) R Hth B1 (G_gpt _ _ _ _ _ R) B2 B3 B4 B5 B6 B7 B8) as H.
     rewrite <- (R_tail _ _ _ _ _ R) in H. exact H.
@@ -1227,7 +1227,7 @@ Section Step.
     SGoal (rwith_tail c tl' t th').
   Proof.
     intros (A1 & A2 & A3) B1 B0 B2 B3 B4 B5 B6 B7 B8.
-    eexists 1%nat, _, L. split; [exact A1|split; [exact A2|split; [exact A3|]]].
+    eexists 1%nat, _, []. rewrite app_nil_r. split; [exact A1|split; [exact A2|split; [exact A3|]]].
     exists la, st. eapply rel_local; eauto.
   Qed.
 
@@ -1323,7 +1323,7 @@ Section Step.
     { intros x. unfold st'. destruct (N.eqb_spec x a); [subst x; rewrite Hx; split; discriminate|tauto]. }
     assert (Hlt' : (t < length (r_thr c))%nat) by (apply nth_error_Some; congruence).
     assert (Heff : eff_rl th = rt_rl th) by (unfold eff_rl; rewrite Hpc; reflexivity).
-    exists 0%nat, s, L. split; [reflexivity|split; [exact HI|split; [exact HT|]]].
+    exists 0%nat, s, []. rewrite app_nil_r. split; [reflexivity|split; [exact HI|split; [exact HT|]]].
     exists la, st'. pose proof R as R0. destruct R.
     constructor; cbn [rwith_thr r_head r_tail r_lid rg_enq rg_deq r_thr r_heap r_own r_free r_bump r_fmax]; auto.
     - rewrite lset_length. assumption.
@@ -1379,7 +1379,7 @@ Section Step.
     { intros x. unfold st'. destruct (N.eqb_spec x a); [congruence|auto]. }
     assert (Hnf : keepf srt a = false -> ~ In a srt).
     { intros _ Hin. subst srt. unfold keepf in Hk. rewrite (found_sorted _ _ Hin) in Hk. discriminate. }
-    exists 0%nat, s, L. split; [reflexivity|split; [exact HI|split; [exact HT|]]].
+    exists 0%nat, s, []. rewrite app_nil_r. split; [reflexivity|split; [exact HI|split; [exact HT|]]].
     exists la, st'. pose proof R as R0. destruct R.
     constructor; cbn [r_head r_tail r_lid rg_enq rg_deq r_thr r_heap r_own r_free r_bump r_fmax]; auto.
     - rewrite lset_length. assumption.
@@ -1458,7 +1458,7 @@ Section Step.
     { intros x. unfold st'. destruct (N.eqb_spec x a); [subst x; rewrite TA; split; discriminate|tauto]. }
     assert (Hsf : forall x, st' x = SF <-> st x = SF).
     { intros x. unfold st'. destruct (N.eqb_spec x a); [subst x; rewrite TA; split; discriminate|tauto]. }
-    exists 1%nat, s', L. split; [eapply lrun1; eauto|split; [exact HI'|split; [exact HT'|]]].
+    exists 1%nat, s', []. rewrite app_nil_r. split; [eapply lrun1; eauto|split; [exact HI'|split; [exact HT'|]]].
     exists la, st'. pose proof R as R0. destruct R.
     constructor; cbn [s' r_head r_tail r_lid rg_enq rg_deq r_thr r_heap r_own r_free r_bump r_fmax
                       s_head s_tail s_fresh g_enq g_deq s_thr s_heap]; auto.
@@ -1551,7 +1551,7 @@ Section Step.
         cbn [s' g_enq] in E2. rewrite app_length, app_nil_r in E2. cbn [length] in E2. lia.
       - rewrite Hlt in H1. injection H1 as <-. rewrite Hpcl in H2. injection H2 as <- _. reflexivity. }
     subst X.
-    exists 1%nat, s', (L ++ [pl nd]). split; [eapply lrun1; eauto|split; [exact HI'|split; [exact HT'|]]].
+    exists 1%nat, s', [pl nd]. split; [eapply lrun1; eauto|split; [exact HI'|split; [exact HT'|]]].
     exists la, st. pose proof R as R0. destruct R.
     constructor; cbn [s' r_head r_tail r_lid rg_enq rg_deq r_thr r_heap r_own r_free r_bump r_fmax
                       s_head s_tail s_fresh g_enq g_deq s_thr s_heap]; auto.
@@ -1635,7 +1635,7 @@ Section Step.
     { absstep Hlt Hpcl. reflexivity. }
     destruct (abs1 _ _ _ _ _ HI HT Habs) as (HI' & HT').
     { intros th0 nd0 tl0 H0. rewrite Hlt in H0. injection H0 as <-. rewrite Hpcl. discriminate. }
-    eexists 1%nat, _, L. split; [eapply lrun1; eauto|split; [exact HI'|split; [exact HT'|]]].
+    eexists 1%nat, _, []. rewrite app_nil_r. split; [eapply lrun1; eauto|split; [exact HI'|split; [exact HT'|]]].
     exists la', st'. pose proof R as R0. destruct R. rewrite R_fresh0 in *. fold l.
     constructor; cbn [r_head r_tail r_lid rg_enq rg_deq r_thr r_heap r_own r_free r_bump r_fmax
                       s_head s_tail s_fresh g_enq g_deq s_thr s_heap]; auto.
@@ -1693,7 +1693,7 @@ End Step.
 
 (* ------------------------------------------------------------------ the simulation *)
 Lemma sim_step c s L t c' r : Inv s L -> TInv s L -> Sim c s L -> rstep c t = Some (c', r) ->
-  exists k s' L', lrun s (repeat t k) = s' /\ Inv s' L' /\ TInv s' L' /\ Sim c' s' L'.
+  exists k s' X, lrun s (repeat t k) = s' /\ Inv s' (L ++ X) /\ TInv s' (L ++ X) /\ Sim c' s' (L ++ X).
 Proof.
   intros HI HT (la & st & R) Hstep. unfold rstep in Hstep.
   destruct (nth_error (r_thr c) t) as [th|] eqn:Hth; [|discriminate].
@@ -1740,7 +1740,7 @@ Proof.
   - assert (Hfin : forall c'' r'',
               (if Nat.eqb (length kept) (r_fmax c) then Some (rwith_thr c t (rgoto th (RdScan p 0 [])), None)
                else Some (rwith_thr c t (set_rl (rfinish th (LPtr p)) kept), Some (LPtr p))) = Some (c'', r'') ->
-              todo = [] -> exists k s' L', lrun s (repeat t k) = s' /\ Inv s' L' /\ TInv s' L' /\ Sim c'' s' L').
+              todo = [] -> exists k s' X, lrun s (repeat t k) = s' /\ Inv s' (L ++ X) /\ TInv s' (L ++ X) /\ Sim c'' s' (L ++ X)).
     { intros c'' r'' H ->. destruct (Nat.eqb_spec (length kept) (r_fmax c)) as [E|E]; injection H as <- <-.
       - eapply case_RdFree_again; eauto.
       - eapply case_RdFree_fin; eauto. }
@@ -1768,8 +1768,8 @@ Proof.
   - exists [], L. auto.
   - cbn [rrun fold_left]. change (fold_left rstep' sched (rstep' c t)) with (rrun (rstep' c t) sched).
     unfold rstep'. destruct (rstep c t) as [[c' r]|] eqn:Hs.
-    + destruct (sim_step _ _ _ _ _ _ HI HT HS Hs) as (k & s' & L' & E & HI' & HT' & HS').
-      destruct (IH c' s' L' HI' HT' HS') as (as' & L'' & A & B & C).
+    + destruct (sim_step _ _ _ _ _ _ HI HT HS Hs) as (k & s' & X & E & HI' & HT' & HS').
+      destruct (IH c' s' (L ++ X) HI' HT' HS') as (as' & L'' & A & B & C).
       exists (repeat t k ++ as'), L''. rewrite lrun_app, E. auto.
     + apply (IH c s L); auto.
 Qed.
@@ -1976,4 +1976,259 @@ Example ex_protected_kept :
   | _, _ => False
   end.
 Proof. vm_compute. repeat split; try reflexivity. intros H. repeat (destruct H as [H|H]; [discriminate H|]). exact H. Qed.
+
+(* ------------------------------------------------------------------ qlfqueue_empty on the reclaiming machine
+   empty() uses no hazard pointer: the head it read may be freed and re-used while it runs, and its final `head == q->head` compares
+   addresses.  What survives (the C15 clause): if it answers 1, every element linked before the call began has been dequeued.
+   What does not: "the queue was empty at some moment of the call" (lfqr_empty_never_empty_refuted).                          *)
+Definition epc (c : rstate) (L : list N) (hd : ptr) (g : nat) : Prop :=
+  (S g <= length L)%nat /\ pl hd < r_lid c /\ pa hd <> 0 /\ pa hd < r_bump c /\
+  (aget (r_own c) (pa hd) = pl hd \/ ~ In (aget (r_own c) (pa hd)) (firstn (S g) L)).
+
+Definition einv_pc (c : rstate) (L : list N) (p : rpc) : Prop :=
+  match p with
+  | RmLdTail hd g | RmLdNext hd _ g =>
+      epc c L hd g /\ exists i, (i <= length (rg_deq c))%nat /\ nth_error L i = Some (pl hd)
+  | RmMF hd _ nx g | RmChk hd _ nx g =>
+      epc c L hd g /\ ((pa nx = 0 -> (g <= length (rg_deq c))%nat) \/ aget (r_own c) (pa hd) <> pl hd \/ In (pa hd) (r_free c))
+  | _ => True
+  end.
+Definition EInv (c : rstate) (L : list N) : Prop :=
+  forall t th, nth_error (r_thr c) t = Some th -> einv_pc c L (rt_pc th).
+
+Lemma firstn_app_le {A} (l x : list A) n : (n <= length l)%nat -> firstn n (l ++ x) = firstn n l.
+Proof. intros H. rewrite firstn_app. replace (n - length l)%nat with O by lia. cbn. apply app_nil_r. Qed.
+
+Section EStep.
+  Variables (c c' : rstate) (s : lstate) (L X : list N) (la : N -> N) (st : N -> status).
+  Hypotheses (HI : Inv s L) (R : Rel c s L la st).
+  Hypotheses (E1 : r_lid c <= r_lid c') (E2 : r_bump c <= r_bump c') (E3 : (length (rg_deq c) <= length (rg_deq c'))%nat).
+  Hypothesis E4 : forall a, aget (r_own c') a = aget (r_own c) a \/ (aget (r_own c') a = r_lid c /\ r_lid c < r_lid c').
+  Hypothesis E5 : forall a, In a (r_free c) -> In a (r_free c') \/ (aget (r_own c') a = r_lid c /\ r_lid c < r_lid c').
+
+  Lemma lid_notin l : In l L -> l < r_lid c.
+  Proof. intros H. destruct HI as (G & _). apply (g_rng _ _ _ _ _ _ _ G) in H. rewrite (R_fresh _ _ _ _ _ R) in H. lia. Qed.
+
+  Lemma epc_stable hd g : epc c L hd g -> epc c' (L ++ X) hd g.
+  Proof.
+    intros (A & B & C & D & F). unfold epc. rewrite firstn_app_le by lia. rewrite app_length.
+    repeat split; try lia; auto.
+    destruct (E4 (pa hd)) as [H|(H & _)]; rewrite H; [exact F|].
+    right. intros Hin. destruct (in_firstn_nth _ _ _ Hin) as (j & _ & Hj). apply nth_error_In in Hj. apply lid_notin in Hj. lia.
+  Qed.
+
+  Lemma einv_pc_stable p : einv_pc c L p -> einv_pc c' (L ++ X) p.
+  Proof.
+    destruct p; cbn [einv_pc]; auto.
+    - intros (A & i & Hi & Hn). split; [apply epc_stable; exact A|]. exists i. split; [lia|].
+      rewrite nth_error_app1; [exact Hn|]. apply nth_error_Some. congruence.
+    - intros (A & i & Hi & Hn). split; [apply epc_stable; exact A|]. exists i. split; [lia|].
+      rewrite nth_error_app1; [exact Hn|]. apply nth_error_Some. congruence.
+    - intros (A & B). split; [apply epc_stable; exact A|]. destruct A as (_ & Hl & _).
+      destruct B as [B|[B|B]].
+      + left. intros Hz. specialize (B Hz). lia.
+      + right; left. destruct (E4 (pa hd)) as [H|(H & _)]; rewrite H; [exact B|lia].
+      + destruct (E5 _ B) as [H|(H & _)]; [right; right; exact H|right; left; rewrite H; lia].
+    - intros (A & B). split; [apply epc_stable; exact A|]. destruct A as (_ & Hl & _).
+      destruct B as [B|[B|B]].
+      + left. intros Hz. specialize (B Hz). lia.
+      + right; left. destruct (E4 (pa hd)) as [H|(H & _)]; rewrite H; [exact B|lia].
+      + destruct (E5 _ B) as [H|(H & _)]; [right; right; exact H|right; left; rewrite H; lia].
+  Qed.
+
+  Lemma einv_update t th th' :
+    EInv c L -> nth_error (r_thr c) t = Some th -> r_thr c' = lset_nth (r_thr c) t th' ->
+    einv_pc c' (L ++ X) (rt_pc th') -> EInv c' (L ++ X).
+  Proof.
+    intros HE Hth Hthr Hnew u uth Hu. rewrite Hthr in Hu. apply nth_lset_case in Hu.
+    destruct Hu as [(-> & -> & _)|(Hne & Hu)]; [exact Hnew|]. apply einv_pc_stable. eapply HE; eauto.
+  Qed.
+End EStep.
+
+Lemma einv_init fmax progs : EInv (rinit fmax progs) [1].
+Proof.
+  intros t th H. cbn [rinit r_thr] in H. rewrite nth_error_map in H.
+  destruct (nth_error progs t); [|discriminate]. injection H as <-. exact I.
+Qed.
+
+Lemma einv_step c s L la st t c' r X :
+  Inv s L -> TInv s L -> Rel c s L la st -> EInv c L -> rstep c t = Some (c', r) -> EInv c' (L ++ X).
+Proof.
+  intros HI HT R HE Hstep. unfold rstep in Hstep.
+  destruct (nth_error (r_thr c) t) as [th|] eqn:Hth; [|discriminate].
+  pose proof (HE t th Hth) as Hold.
+  cbv zeta in Hstep.
+  assert (Hfin : forall r0 th0, rt_pc th0 = rt_pc (rfinish th r0) -> einv_pc c' (L ++ X) (rt_pc th0)).
+  { intros r0 th0 ->. rewrite (proj1 (rfin_proj th r0)). exact I. }
+  Ltac eup HI R HE Hth := eapply einv_update; [exact HI|exact R| | | | | |exact HE|exact Hth|reflexivity|];
+    cbn [rwith_thr rwith_tail r_lid r_bump rg_deq r_own r_free];
+    try lia; try (intros; left; reflexivity); try (intros; left; assumption).
+  destruct (rt_pc th) eqn:Hpc.
+  - destruct (rt_ops th) as [|o rest]; [discriminate|]. injection Hstep as <- <-. eup HI R HE Hth. cbn. destruct o; exact I.
+  - (* ReAlloc *) injection Hstep as <- <-.
+    eapply einv_update; [exact HI|exact R| | | | | |exact HE|exact Hth|reflexivity|exact I];
+      cbn [r_lid r_bump rg_deq r_own r_free]; try lia.
+    + destruct (r_free c); lia.
+    + intros a. rewrite aget_aset. destruct (a =? _); [right; split; [reflexivity|lia]|left; reflexivity].
+    + intros a Ha. destruct (r_free c) as [|x f]; [destruct Ha|]. destruct Ha as [<-|Ha]; [right|left; exact Ha].
+      rewrite aget_aset, N.eqb_refl. split; [reflexivity|lia].
+  - injection Hstep as <- <-. eup HI R HE Hth. exact I.
+  - injection Hstep as <- <-. eup HI R HE Hth. exact I.
+  - destruct (pa tl =? pa (r_tail c)); injection Hstep as <- <-; eup HI R HE Hth; exact I.
+  - destruct (pa (rn_next (rget (r_heap c) (pa tl))) =? 0); injection Hstep as <- <-; eup HI R HE Hth; exact I.
+  - injection Hstep as <- <-. eup HI R HE Hth. exact I.
+  - destruct (pa (rn_next (rget (r_heap c) (pa tl))) =? 0); injection Hstep as <- <-; eup HI R HE Hth; exact I.
+  - injection Hstep as <- <-. eup HI R HE Hth. exact I.
+  - injection Hstep as <- <-. eup HI R HE Hth. cbn [set_hz0 rt_pc]. eapply Hfin; reflexivity.
+  - injection Hstep as <- <-. eup HI R HE Hth. exact I.
+  - injection Hstep as <- <-. eup HI R HE Hth. exact I.
+  - destruct (pa hd =? pa (r_head c)); injection Hstep as <- <-; eup HI R HE Hth; exact I.
+  - injection Hstep as <- <-. eup HI R HE Hth. exact I.
+  - injection Hstep as <- <-. eup HI R HE Hth. exact I.
+  - destruct (pa nx =? 0); [|destruct (pa hd =? pa tl)]; injection Hstep as <- <-; eup HI R HE Hth; try exact I.
+    cbn [set_hz1 rt_pc]. eapply Hfin; reflexivity.
+  - injection Hstep as <- <-. eup HI R HE Hth. exact I.
+  - injection Hstep as <- <-. eup HI R HE Hth. exact I.
+  - destruct (pa (r_head c) =? pa hd); injection Hstep as <- <-; eup HI R HE Hth; try exact I.
+    rewrite app_length. lia.
+  - injection Hstep as <- <-. eup HI R HE Hth. exact I.
+  - injection Hstep as <- <-. eup HI R HE Hth. exact I.
+  - destruct (Nat.eqb (length (rt_rl th)) (r_fmax c)); injection Hstep as <- <-; eup HI R HE Hth; try exact I.
+    cbn [set_hz1 rt_pc]. eapply Hfin; reflexivity.
+  - destruct (Nat.ltb i (2 * length (r_thr c))); injection Hstep as <- <-; eup HI R HE Hth; exact I.
+  - assert (Hfp : forall c'' r'',
+              (if Nat.eqb (length kept) (r_fmax c) then Some (rwith_thr c t (rgoto th (RdScan p 0 [])), None)
+               else Some (rwith_thr c t (set_rl (rfinish th (LPtr p)) kept), Some (LPtr p))) = Some (c'', r'') -> c'' = c' -> EInv c' (L ++ X)).
+    { intros c'' r'' H <-. destruct (Nat.eqb (length kept) (r_fmax c)); injection H as <- <-; eup HI R HE Hth; try exact I.
+      cbn [set_rl rt_pc]. rewrite (proj1 (rfin_proj th (LPtr p))). exact I. }
+    destruct todo as [|a todo']; [eapply Hfp; eauto|].
+    destruct (a =? 0); [eapply Hfp; eauto|].
+    destruct (binary_search srt a (N.of_nat (length srt))) as [[|]|]; injection Hstep as <- <-.
+    + eup HI R HE Hth. exact I.
+    + eapply einv_update; [exact HI|exact R| | | | | |exact HE|exact Hth|reflexivity|exact I];
+        cbn [r_lid r_bump rg_deq r_own r_free]; try lia; try (intros; left; reflexivity). intros b Hb. left. right. exact Hb.
+    + eup HI R HE Hth. exact I.
+  - (* RmLdHead: head and the number of linked elements are read *)
+    injection Hstep as <- <-. eup HI R HE Hth. cbn [rgoto rt_pc einv_pc].
+    destruct (head_live _ _ _ _ _ HI R) as (A1 & A2 & A3).
+    pose proof HI as (G & _). pose proof (g_lenE _ _ _ _ _ _ _ G) as HlE. pose proof (g_lenD _ _ _ _ _ _ _ G) as HlD.
+    pose proof (g_head _ _ _ _ _ _ _ G) as Hh. rewrite (R_head _ _ _ _ _ R), (R_deq _ _ _ _ _ R) in Hh.
+    rewrite (R_enq _ _ _ _ _ R) in HlE.
+    destruct (G_own _ _ _ _ _ R (pa (r_head c)) ltac:(congruence)) as (B1 & _). rewrite A2 in B1.
+    assert (Hu : ~ (pa (r_head c) = 0 \/ r_bump c <= pa (r_head c))) by (intros H; apply (G_U _ _ _ _ _ R) in H; congruence).
+    split.
+    + unfold epc. cbn [rwith_thr r_lid r_bump r_own]. rewrite app_length. split; [lia|]. split; [lia|]. split; [exact A3|]. split; [lia|]. left. exact A2.
+    + exists (length (rg_deq c)). split; [cbn; lia|]. rewrite nth_error_app1 by (rewrite (R_deq _ _ _ _ _ R) in HlD; lia). exact Hh.
+  - (* RmLdTail *) injection Hstep as <- <-. eup HI R HE Hth. cbn [rgoto rt_pc].
+    eapply (einv_pc_stable c _ s L X la st HI R) with (p := RmLdNext hd (r_tail c) g); cbn [rwith_thr r_lid r_bump rg_deq r_own r_free];
+      try lia; try (intros; left; reflexivity); try (intros; left; assumption). exact Hold.
+  - (* RmLdNext: head->next is loaded, possibly from a node that is no longer the incarnation read *)
+    injection Hstep as <- <-. eup HI R HE Hth. cbn [rgoto rt_pc].
+    set (nx := rn_next (rget (r_heap c) (pa hd))).
+    eapply (einv_pc_stable c _ s L X la st HI R) with (p := RmMF hd tl nx g); cbn [rwith_thr r_lid r_bump rg_deq r_own r_free];
+      try lia; try (intros; left; reflexivity); try (intros; left; assumption).
+    cbn [einv_pc] in *. destruct Hold as (A & i & Hi & Hn). split; [exact A|].
+    destruct (N.eq_dec (aget (r_own c) (pa hd)) (pl hd)) as [Eo|Eo]; [|right; left; exact Eo].
+    destruct (in_dec N.eq_dec (pa hd) (r_free c)) as [Ef|Ef]; [right; right; exact Ef|]. left. intros Hz.
+    destruct A as (A1 & A2 & A3 & A4 & _).
+    assert (S1 : st (pa hd) <> SF) by (intros H; apply (G_F _ _ _ _ _ R) in H; contradiction).
+    assert (S2 : st (pa hd) <> SU) by (intros H; apply (G_U _ _ _ _ _ R) in H; lia).
+    pose proof (R_heap _ _ _ _ _ R (pa hd) S2 S1) as Hh. rewrite Eo in Hh. fold nx in Hh.
+    assert (Hlz : pl nx = 0). { destruct (G_gpn _ _ _ _ _ R (pa hd) S2) as [[_ ?]|(? & _)]; [assumption|contradiction]. }
+    pose proof HI as (G & _).
+    assert (Hb : before L (length (g_deq s)) (pl hd)).
+    { unfold before. rewrite (R_deq _ _ _ _ _ R). eapply nth_in_firstn; [exact Hn|lia]. }
+    assert (Hn0 : n_next (hget (s_heap s) (pl hd)) = 0) by (rewrite Hh; exact Hlz).
+    pose proof (before_last _ _ _ _ _ _ _ G _ Hb Hn0) as HDE. pose proof (g_lenE _ _ _ _ _ _ _ G) as HlE.
+    rewrite (R_deq _ _ _ _ _ R) in HDE. lia.
+  - (* RmMF *) injection Hstep as <- <-. eup HI R HE Hth. cbn [rgoto rt_pc].
+    eapply (einv_pc_stable c _ s L X la st HI R) with (p := RmChk hd tl nx g); cbn [rwith_thr r_lid r_bump rg_deq r_own r_free];
+      try lia; try (intros; left; reflexivity); try (intros; left; assumption). exact Hold.
+  - destruct (pa hd =? pa (r_head c)); [destruct ((pa hd =? pa tl) && (pa nx =? 0))|]; injection Hstep as <- <-; eup HI R HE Hth; try exact I.
+    + eapply Hfin; reflexivity.
+    + eapply Hfin; reflexivity.
+Qed.
+
+Lemma sim_run_e_gen sched : forall c s L, Inv s L -> TInv s L -> Sim c s L -> EInv c L ->
+  exists asched L', Inv (lrun s asched) L' /\ TInv (lrun s asched) L' /\ Sim (rrun c sched) (lrun s asched) L' /\ EInv (rrun c sched) L'.
+Proof.
+  induction sched as [|t sched IH]; intros c s L HI HT HS HE.
+  - exists [], L. auto.
+  - cbn [rrun fold_left]. change (fold_left rstep' sched (rstep' c t)) with (rrun (rstep' c t) sched).
+    unfold rstep'. destruct (rstep c t) as [[c' r]|] eqn:Hs.
+    + destruct (sim_step _ _ _ _ _ _ HI HT HS Hs) as (k & s' & X & E & HI' & HT' & HS').
+      assert (HE' : EInv c' (L ++ X)) by (destruct HS as (la & st & R); eapply einv_step; eauto).
+      destruct (IH c' s' (L ++ X) HI' HT' HS' HE') as (as' & L'' & A & B & C & D).
+      exists (repeat t k ++ as'), L''. rewrite lrun_app, E. auto.
+    + apply (IH c s L); auto.
+Qed.
+
+Lemma reach_rel_e fmax progs sched :
+  exists s L la st, Inv s L /\ TInv s L /\ Rel (rrun (rinit fmax progs) sched) s L la st /\ EInv (rrun (rinit fmax progs) sched) L.
+Proof.
+  destruct (sim_run_e_gen sched (rinit fmax progs) (linit (aprogs progs)) [1]) as (asched & L & A & B & (la & st & R) & D).
+  - apply inv_init.
+  - apply tinv_init.
+  - eexists _, _. apply rel_init.
+  - apply einv_init.
+  - eauto 10.
+Qed.
+
+(* The C15 clause for qlfqueue_empty WITH node re-use: when empty() answers 1, every element that was linked (in particular every
+   element whose enqueue had completed) when the call read q->head has been dequeued.  g is the ghost recorded at that read. *)
+Theorem lfqr_empty_sound fmax progs sched :
+  let c := rrun (rinit fmax progs) sched in
+  forall t hd tl nx g c', rpc_of c t = RmChk hd tl nx g -> rstep c t = Some (c', Some (LInt 1)) ->
+    (g <= length (rg_deq c))%nat.
+Proof.
+  intros c t hd tl nx g c' Hpc Hstep. destruct (reach_rel_e fmax progs sched) as (s & L & la & st & HI & HT & R & HE). fold c in R, HE.
+  unfold rpc_of in Hpc. unfold rstep in Hstep.
+  destruct (nth_error (r_thr c) t) as [th|] eqn:Hth; [|discriminate].
+  pose proof (HE t th Hth) as Hq. rewrite Hpc in *. cbn [einv_pc] in Hq. cbv zeta in Hstep.
+  destruct (N.eqb_spec (pa hd) (pa (r_head c))) as [Ea|Ea]; [|discriminate].
+  destruct (pa hd =? pa tl); cbn [andb] in Hstep; [|unfold rfinish in Hstep; destruct (rt_cur th); discriminate].
+  destruct (N.eqb_spec (pa nx) 0) as [Hz|Hnz]; [|unfold rfinish in Hstep; destruct (rt_cur th); discriminate].
+  destruct Hq as ((A1 & A2 & A3 & A4 & A5) & B).
+  destruct (head_live _ _ _ _ _ HI R) as (H1 & H2 & H3).
+  assert (Hnf : ~ In (pa hd) (r_free c)).
+  { rewrite Ea. intros Hin. apply (G_F _ _ _ _ _ R) in Hin. congruence. }
+  pose proof HI as (G & _). pose proof (g_head _ _ _ _ _ _ _ G) as Hh.
+  rewrite (R_head _ _ _ _ _ R), (R_deq _ _ _ _ _ R) in Hh.
+  destruct A5 as [A5|A5].
+  - destruct B as [B|[B|B]]; [auto|contradiction|contradiction].
+  - rewrite Ea, H2 in A5. destruct (le_lt_dec g (length (rg_deq c))) as [Hle|Hlt]; [exact Hle|exfalso].
+    apply A5. eapply nth_in_firstn; [exact Hh|lia].
+Qed.
+
+(* ... but empty() is NOT linearizable once addresses are re-used: it can answer 1 although the queue was non-empty at every moment of
+   the call.  freelist_max = 10; A (thread 1) = [empty()], B (thread 2): 12 enqueues | A reads q->head (the dummy, address 1) |
+   B: 10 dequeues (the scan frees addresses 1..10: A publishes no hazard pointer), 10 enqueues (LIFO pool: the 10th node is address 1
+   again, it is q->tail and its next is NULL) | A reads q->tail (address 1 = head) and head->next (NULL, of the new incarnation) |
+   B: 1 enqueue, 12 dequeues (q->head reaches address 1 again; element 301 is queued) | A: `head == q->head` holds, returns 1.   *)
+Definition w2_enqs (b n : nat) : list lop := map (fun k => LEnq (N.of_nat k)) (seq b n).
+Definition w2_progs : list (list lop) :=
+  [[]; [LEmp]; w2_enqs 101 12 ++ repeat LDeq 10 ++ w2_enqs 201 10 ++ w2_enqs 301 1 ++ repeat LDeq 12].
+Definition w2_before : list nat := repeat 2%nat 108.
+Definition w2_call : list nat :=
+  repeat 1%nat 2 ++ repeat 2%nat (138 + 90) ++ repeat 1%nat 2 ++ repeat 2%nat (9 + 162) ++ repeat 1%nat 2.
+
+Theorem lfqr_empty_never_empty_refuted :
+  exists fmax progs before call,
+    (* before the call A is idle with empty() as its next operation; after it A has returned 1 *)
+    (exists th, nth_error (r_thr (rrun (rinit fmax progs) before)) 1 = Some th /\ rt_pc th = RIdle /\ rt_ops th = [LEmp]) /\
+    (exists th, nth_error (r_thr (rrun (rinit fmax progs) (before ++ call))) 1 = Some th /\ rt_out th = [(LEmp, LInt 1)]) /\
+    (* at every moment of the call more elements have been linked than dequeued: the queue is never empty *)
+    forall n, let c := rrun (rinit fmax progs) (before ++ firstn n call) in (length (rg_deq c) < length (rg_enq c))%nat.
+Proof.
+  exists 10%nat, w2_progs, w2_before, w2_call. split; [|split].
+  - eexists. vm_compute. repeat split.
+  - eexists. vm_compute. repeat split.
+  - assert (H : forallb (fun n => let c := rrun (rinit 10 w2_progs) (w2_before ++ firstn n w2_call) in
+                                  Nat.ltb (length (rg_deq c)) (length (rg_enq c))) (seq 0 (S (length w2_call))) = true)
+      by (vm_compute; reflexivity).
+    rewrite forallb_forall in H. intros n. cbv zeta.
+    destruct (le_lt_dec n (length w2_call)) as [Hle|Hgt].
+    + apply Nat.ltb_lt. apply (H n). apply in_seq. lia.
+    + rewrite firstn_all2 by lia. rewrite <- (firstn_all w2_call). apply Nat.ltb_lt. apply (H (length w2_call)). apply in_seq. lia.
+Qed.
 
